@@ -19,7 +19,8 @@ Open Scope N_scope.
 
 Definition key := bytes.
 Inductive jval := JNum (n : N) | JStr (s : bytes) | JNull | JBool (b : bool) | JArr (l : list N).
-Inductive gval := GNum (n : N) | GInt (n : N) | GStr (s : bytes) | GNull | GBool (b : bool) | GArr (l : list N).
+(* GBad: a Go value encoding/json cannot marshal (a channel) *)
+Inductive gval := GNum (n : N) | GInt (n : N) | GStr (s : bytes) | GNull | GBool (b : bool) | GArr (l : list N) | GBad.
 (* a property value or res.DeleteAction *)
 Inductive act (A : Type) := Put (a : A) | Del.
 Arguments Put {A} a.
@@ -30,7 +31,9 @@ Definition norm (g : gval) : jval :=
   match g with
   | GNum n => JNum n | GInt n => JNum n | GStr s => JStr s
   | GNull => JNull | GBool b => JBool b | GArr l => JArr l
+  | GBad => JNull                                        (* never reached: marshalling fails first *)
   end.
+Definition is_bad (g : gval) : bool := match g with GBad => true | _ => false end.
 Definition jeqb (a b : jval) : bool :=
   match a, b with
   | JNum x, JNum y => x =? y
@@ -104,11 +107,16 @@ Record cfg := Cfg {
   c_type : rtype;
   c_ty : ty;
   c_def : option res;             (* Default (rawDefault is its JSON) *)
-  c_idx : option (list keyfn)     (* resbadger.Model.IndexSet *)
+  c_idx : option (list keyfn);    (* resbadger.Model.IndexSet *)
+  c_map : option (res -> option res)  (* resbadger.Model.Map: None (inner) = the callback returns an error *)
 }.
 (* only resbadger.Model carries an index set *)
 Definition idxs (c : cfg) : option (list keyfn) :=
   match c_pkg c, c_type c with ResB, TModel => c_idx c | _, _ => None end.
+
+(* only resbadger.Model has a Map callback *)
+Definition maps (c : cfg) : option (res -> option res) :=
+  match c_pkg c, c_type c with ResB, TModel => c_map c | _, _ => None end.
 
 (* v is a value of the element type of Type *)
 Definition vfits (t : ty) (v : jval) : bool :=
@@ -245,6 +253,9 @@ Definition apply_change (c : cfg) (s : state) (cs : list (key * act gval)) : out
   match c_type c with
   | TColl => Failed s
   | TModel =>
+    (* a value that cannot be marshalled always counts as changed and makes json.Marshal(m) fail
+       (or, on a missing / undecodable / null entry, the handler fails before that) *)
+    if existsb (fun ka => match snd ka with Put g => is_bad g | Del => false end) cs then Failed s else
     match start c s with
     | None => Failed s                                   (* res.ErrNotFound *)
     | Some (RColl _) => Failed s                         (* json: cannot unmarshal array into map *)
@@ -272,6 +283,7 @@ Definition apply_add (c : cfg) (s : state) (v : gval) (i : N) : outcome :=
   match c_type c with
   | TModel => Failed s
   | TColl =>
+    if is_bad v then Failed s else                       (* json.Marshal(value) fails (or an earlier check) *)
     (* a missing collection without Default and a stored `null` (nil slice) count as empty *)
     match (match start c s with Some RNull => RColl [] | Some r => r | None => RColl [] end) with
     | RModel _ => Failed s
@@ -353,8 +365,16 @@ Definition apply_delete_v0 (c : cfg) (s : state) : outcome :=
 Inductive gres := GOk (r : res) | GNotFound | GErr.
 Definition get_resource (c : cfg) (s : state) : gres :=
   match st_val s with
-  | Some r => GOk r                                      (* json.RawMessage(dta) *)
-  | None => match c_def c with Some d => GOk d | None => GNotFound end
+  | Some r =>
+    match maps c with
+    | None => GOk r                                      (* json.RawMessage(dta) *)
+    | Some f =>                                          (* Map(value unmarshalled into Type) *)
+      match decode c r with
+      | Some r' => match f r' with Some x => GOk x | None => GErr end
+      | None => GErr
+      end
+    end
+  | None => match c_def c with Some d => GOk d | None => GNotFound end   (* the Default is not mapped *)
   end.
 Definition value_resource (c : cfg) (s : state) : gres :=
   match st_val s with
@@ -370,6 +390,7 @@ Inductive event :=
 | EAdd (v : gval) (i : Z)
 | ERemove (i : Z)
 | ECreate (d : res)
+| ECreateBad                     (* CreateEvent with a value that cannot be marshalled *)
 | EDelete.
 
 Definition pubvals (cs : list (key * act gval)) : revmap :=
@@ -430,6 +451,7 @@ Definition fire (c : cfg) (s : state) (e : event) : obs :=
     | Failed s' => silent true s'
     | Applied s' _ => Obs false (Some PCreate) (Some (LCreate d)) s'
     end
+  | ECreateBad => silent true s    (* already exists, or json.Marshal(value) fails *)
   | EDelete =>
     match apply_delete c s with
     | Failed s' => silent true s'
@@ -458,4 +480,91 @@ Definition field_key (f : key) : keyfn := fun r =>
     | _ => None
     end
   | _ => None
+  end.
+
+(* the Map callback used by the correspondence harness: keeps property a, adds m = 1, fails when b = "y" *)
+Definition fld_m : key := [109].
+Definition std_map : res -> option res := fun r =>
+  match r with
+  | RModel m =>
+    match mget fld_b m with
+    | Some (JStr [121]) => None
+    | _ => Some (RModel (match mget fld_a m with Some v => [(fld_a, v)] | None => [] end ++ [(fld_m, JNum 1)]))
+    end
+  | RNull => Some (RModel [(fld_m, JNum 1)])
+  | RColl _ => None
+  end.
+
+(* ---- index listeners (IndexSet.Listen / ListenIndex): the calls one event makes, in order.
+   IC (Some i) b a : listeners of index i ; IC None b a : listeners of the whole set *)
+Inductive icall := IC (name : option N) (before after : option res).
+Fixpoint upd_change (i : N) (ks : list keyfn) (b a : res) : list N :=
+  match ks with
+  | [] => []
+  | kf :: ks' => (if beq (kbytes (kf b)) (kbytes (kf a)) then [] else [i]) ++ upd_change (i + 1) ks' b a
+  end.
+Fixpoint upd_some (i : N) (ks : list keyfn) (v : res) : list N :=
+  match ks with
+  | [] => []
+  | kf :: ks' => (match kf v with Some _ => [i] | None => [] end) ++ upd_some (i + 1) ks' v
+  end.
+Definition idx_calls (c : cfg) (s : state) (e : event) : list icall :=
+  match idxs c with
+  | None => []
+  | Some ks =>
+    match e with
+    | EChange cs =>
+      match apply_change c s cs, start c s with
+      | Applied _ (ORev (_ :: _)), Some (RModel m0) =>
+        match decode c (RModel m0), decode c (RModel (fst (change_loop cs m0))) with
+        | Some b, Some a =>
+          match upd_change 0 ks b a with
+          | [] => []
+          | u => map (fun i => IC (Some i) (Some b) (Some a)) u ++ [IC None (Some b) (Some a)]
+          end
+        | _, _ => []
+        end
+      | _, _ => []
+      end
+    | ECreate d =>
+      match apply_create c s d with
+      | Applied _ _ =>
+        match upd_some 0 ks d with
+        | [] => []
+        | u => map (fun i => IC (Some i) None (Some d)) u ++ [IC None None (Some d)]
+        end
+      | Failed _ => []
+      end
+    | EDelete =>
+      match apply_delete c s with
+      | Applied _ (OData None) => [IC None None None]
+      | Applied _ (OData (Some r')) => map (fun i => IC (Some i) (Some r') None) (upd_some 0 ks r') ++ [IC None (Some r') None]
+      | _ => []
+      end
+    | _ => []
+    end
+  end.
+
+(* ---- Model.RebuildIndexes(pattern) with this resource the only one under the pattern.
+   typeset = the Type option is set (RebuildIndexes uses reflect.TypeOf(o.Type) as it is) *)
+Inductive rbres := RbOk (l : list ent) | RbErr | RbPanic.
+Fixpoint all_entries (i : N) (ks : list keyfn) (v : res) : list ent :=
+  match ks with
+  | [] => []
+  | kf :: ks' => (i, kbytes (kf v)) :: all_entries (i + 1) ks' v     (* a nil key gives an entry with an empty key *)
+  end.
+Definition rebuild (c : cfg) (typeset : bool) (s : state) : rbres :=
+  match idxs c with
+  | None => RbOk (st_idx s)
+  | Some [] => RbOk (st_idx s)
+  | Some ks =>
+    match st_val s with
+    | None => RbOk []                                    (* DropPrefix, nothing to index *)
+    | Some r =>
+      if negb typeset then RbPanic                       (* reflect.New(nil) *)
+      else match decode c r with
+           | Some r' => RbOk (all_entries 0 ks r')
+           | None => RbErr                               (* entries dropped, transaction rolled back *)
+           end
+    end
   end.
